@@ -259,7 +259,7 @@ func (cs *checkState) run() int {
 			tried[v.Class]++
 			path, ok, why := cs.confirmAndWrite(v, deadline)
 			if !ok {
-				failed[v.Class] = fmt.Sprintf("a %q event in run %d (seed %d, %s) was observed but could not be reproduced: %s", v.Class, v.Run, v.Seed, v.Flavour, why)
+				failed[v.Class] = fmt.Sprintf("a %q event in run %d (seed %d, %s) was observed but could not be reproduced: %s\n%s", v.Class, v.Run, v.Seed, v.Flavour, why, indent(firstLines(v.Message, 60)))
 				continue
 			}
 			seen[v.Class] = true
@@ -494,6 +494,9 @@ func replayClassWant(bin, path, flavour, want string) (class, note string) {
 		return r.deaths[0].Class, r.deaths[0].Note
 	case len(r.ends) > 0:
 		e := r.ends[0]
+		if os.Getenv("VERIF_SHOW") != "" { // debugging aid: what the replayed run did
+			fmt.Printf("verif: replayed run: outcome %q, %d steps, %d switches, tags %v, probes %v, faults %v\n  sample %s\n", e.Outcome, e.Steps, e.Switches, e.Tags, e.Probes, e.Faults, string(e.Sample))
+		}
 		if e.Diverged != "" {
 			return "diverged", e.Diverged
 		}
